@@ -26,10 +26,10 @@ func utc(y int, m time.Month, d, hh, mm, ss int) int64 {
 // base days: ordinary, month ends (30/31/29 days), year end
 var baseDays = []int64{
 	utc(2023, 11, 14, 0, 0, 0),
-	utc(2024, 3, 1, 0, 0, 0),  // day after Feb 29
-	utc(2024, 1, 1, 0, 0, 0),  // year start
-	utc(2024, 7, 1, 0, 0, 0),  // after a 30-day month
-	utc(2023, 8, 1, 0, 0, 0),  // after a 31-day month, northern summer (DST in New York)
+	utc(2024, 3, 1, 0, 0, 0), // day after Feb 29
+	utc(2024, 1, 1, 0, 0, 0), // year start
+	utc(2024, 7, 1, 0, 0, 0), // after a 30-day month
+	utc(2023, 8, 1, 0, 0, 0), // after a 31-day month, northern summer (DST in New York)
 	utc(2024, 12, 10, 0, 0, 0),
 }
 
